@@ -708,6 +708,15 @@ func kindFor(fp *faultProgram, job, kind string, k int) string {
 	return kind
 }
 
+func sortedForkKeys(m map[string]*vmon.Fork) []string {
+	ks := make([]string, 0, len(m))
+	for k := range m {
+		ks = append(ks, k)
+	}
+	sort.Strings(ks)
+	return ks
+}
+
 var pyFailKinds = []string{"py_raise", "py_exit", "py_throw", "py_sysexit", "py_osexit", "py_kill"}
 
 type failOutcome struct {
@@ -1009,9 +1018,18 @@ func init() {
 				// the first skeleton is the one with preflight calls (kind 3)
 				tmpl = 1 + (pi/3+3)%pgen.NTemplates
 			}
+			chunkChoices := []int{1, 2, 3}
+			if pi%4 == 0 {
+				// skeleton 4: a splitting stage (chunk-level outputs, two or three
+				// chunks per fork) mapped over a run-time collection - the sites
+				// of the directed non-last-chunk faults below always exist
+				tmpl = 5
+				cfg.ForceSplit = true
+				chunkChoices = []int{2, 3}
+			}
 			fp := makeFaultProgram(c, c.Seed*11+int64(pi)*15485863, cfg, []string{"rolling", "disable", "strict"}[pi%3],
 				func(s *pgen.Spec) {
-					s.ChunkChoices = []int{1, 2, 3}
+					s.ChunkChoices = chunkChoices
 					s.PNull = 0
 				}, 5, tmpl)
 			if fp == nil {
@@ -1055,6 +1073,26 @@ func init() {
 					}
 					jobs = append(jobs, job{fp, idx, fs})
 					idx++
+				}
+				// directed: bad outputs of a chunk that is not the last one of its
+				// fork (the later chunks' outputs are fine), every output-fault kind
+				{
+					nForks := 0
+					for _, fk := range sortedForkKeys(fp.obs.Forks) {
+						f := fp.obs.Forks[fk]
+						if f.Split == nil || len(f.Chunks) < 2 || f.Chunks[0] == nil || nForks >= 2 {
+							continue
+						}
+						nForks++
+						for r, kind := range []string{"trunc_outs", "missing_key", "no_outs", "wrong_type"} {
+							cj := f.Chunks[(r+nForks)%(len(f.Chunks)-1)]
+							if cj == nil {
+								cj = f.Chunks[0]
+							}
+							jobs = append(jobs, job{fp, idx, failSpec{Job: cj.ID, Fail: kindFor(fp, cj.ID, kind, r), Repeated: true}})
+							idx++
+						}
+					}
 				}
 				// failing preflight calls: everything else in the pipeline,
 				// nested at any depth, depends on them
